@@ -1,7 +1,7 @@
 (* Model/C11_Spec.v — the declarative grammars the C11 theorems speak about
    (definitions only).  Text = list of code points; 46 '.', 58 ':', 37 '%',
    47 '/', 10 '\n'; dec_of_N n is str(n). *)
-Require Import OV.Base.Bytes OV.Base.PyInt OV.Base.Str OV.Base.C11_Lib.
+Require Import OV.Base.Bytes OV.Base.PyInt OV.Base.Str OV.Base.C11_Lib OV.Model.C11.
 Open Scope N_scope.
 
 Definition dots : list str -> str := join [46].
@@ -56,3 +56,67 @@ Definition net_contract (r : ares) : bool :=
 (* int(v) succeeds with value z *)
 Definition pyint (v : pyval) : option Z :=
   match py_int_of v with Py.Ok z => Some z | Py.Exn _ => None end.
+
+(* ---------- inet_aton text (glibc): 1..4 C integer literals separated by '.', the last one
+   filling the remaining bytes; anything after the first C white-space character is ignored ---------- *)
+Definition c_space (c : N) : Prop := 9 <= c <= 13 \/ c = 32.
+Definition digit_char (c : N) : Prop := 48 <= c <= 57.
+Definition octal_char (c : N) : Prop := 48 <= c <= 55.
+(* p is a C integer literal (as strtoul(p, _, 0) reads all of it) of value v:
+   decimal without leading zero | 0 followed by octal digits | 0x / 0X followed by hex digits *)
+Definition c_literal (p : str) (v : N) : Prop :=
+  (exists c t, p = c :: t /\ 49 <= c <= 57 /\ Forall digit_char t /\ v = dval p 0) \/
+  (exists t, p = 48 :: t /\ Forall octal_char t /\ v = octval t) \/
+  (exists x t, p = 48 :: x :: t /\ (x = 120 \/ x = 88) /\ t <> [] /\ Forall hex_char t /\ v = hexval t).
+Definition aton_values (vs : list N) : Prop :=
+  match vs with
+  | [a] => a < 2 ^ 32
+  | [a; b] => a <= 255 /\ b < 2 ^ 24
+  | [a; b; c] => a <= 255 /\ b <= 255 /\ c < 2 ^ 16
+  | [a; b; c; d] => a <= 255 /\ b <= 255 /\ c <= 255 /\ d <= 255
+  | _ => False
+  end.
+Definition aton_text (s : str) : Prop :=
+  exists ps vs rest, Forall2 c_literal ps vs /\ aton_values vs /\
+                     s = dots ps ++ rest /\ (rest = [] \/ exists w t, rest = w :: t /\ c_space w).
+
+(* ---------- netaddr.IPNetwork text ---------- *)
+(* the value of a netmask (k leading one bits) or hostmask (k trailing one bits) of width w *)
+Definition mask_value (w m : N) : Prop := exists j, j <= w /\ (m = 2 ^ w - 2 ^ j \/ m = 2 ^ j - 1).
+Definition quad_value (q : str) (m : N) : Prop :=
+  exists a b c d, a <= 255 /\ b <= 255 /\ c <= 255 /\ d <= 255 /\
+                  q = dots [dec_of_N a; dec_of_N b; dec_of_N c; dec_of_N d] /\
+                  m = ((a * 256 + b) * 256 + c) * 256 + d.
+
+(* the eight 16-bit units of an IPv6 text: the groups read as hexadecimal numbers, a dotted quad of
+   value m as the two units m / 65536 and m mod 65536, "::" as the missing zero units *)
+Definition quad_units (m : N) : list N := [m / 65536; m mod 65536].
+Definition ipv6_units (s : str) (us : list N) : Prop :=
+  (exists g, Forall h16 g /\ length g = 8%nat /\ s = colons g /\ us = map hexval g) \/
+  (exists g q m, Forall h16 g /\ length g = 6%nat /\ quad_value q m /\ s = colons (g ++ [q]) /\
+                 us = map hexval g ++ quad_units m) \/
+  (exists l r, Forall h16 l /\ Forall h16 r /\ (length l + length r <= 7)%nat /\
+               s = colons l ++ [58; 58] ++ colons r /\
+               us = map hexval l ++ repeat 0 (8 - length l - length r) ++ map hexval r) \/
+  (exists l r q m, Forall h16 l /\ Forall h16 r /\ quad_value q m /\ (length l + length r <= 5)%nat /\
+                   s = colons l ++ [58; 58] ++ colons (r ++ [q]) /\
+                   us = map hexval l ++ repeat 0 (6 - length l - length r) ++ map hexval r ++ quad_units m).
+Definition units_to_N (us : list N) : N := fold_left (fun acc u => acc * 65536 + u) us 0.
+Definition ipv6_value (s : str) (m : N) : Prop := exists us, ipv6_units s us /\ m = units_to_N us.
+
+(* address text of one family, and its integer value *)
+Definition addr_text (v6 : bool) (s : str) : Prop := if v6 then ipv6_text s else dotted_quad s.
+Definition addr_value (v6 : bool) (s : str) (m : N) : Prop :=
+  if v6 then ipv6_value s m else quad_value s m.
+(* what may follow the '/': an integer literal as int() reads it, in 0..width; or, when int()
+   refuses the text, an address of the same family whose value is a netmask or a hostmask *)
+Definition prefix_text (v6 : bool) (p : str) : Prop :=
+  (exists z, py_int_str p = Some z /\ (0 <= z <= Z.of_N (ip_width v6))%Z) \/
+  (py_int_str p = None /\ exists m, addr_value v6 p m /\ mask_value (ip_width v6) m).
+(* IPNetwork text of one family: address, optionally '/' and a prefix text *)
+Definition network_text (v6 : bool) (s : str) : Prop :=
+  exists a, addr_text v6 a /\ (s = a \/ exists p, s = a ++ 47 :: p /\ prefix_text v6 p).
+(* what is_valid_cidr accepts: the '/' part is mandatory *)
+Definition cidr_text (s : str) : Prop :=
+  exists a p, s = a ++ 47 :: p /\
+              ((dotted_quad a /\ prefix_text false p) \/ (ipv6_text a /\ prefix_text true p)).
